@@ -134,11 +134,7 @@ func runC06(s *core.Sim, tier string) RunInfo {
 				continue
 			}
 			hist = append(hist, "stop+start")
-			if err := w.Stop(); err != nil {
-				s.Violate("stop-error", nil, "Stop: %v", err)
-				break
-			}
-			if err := w.Open(); err != nil {
+			if err := w.Restart(); err != nil {
 				s.Violate("start-error", map[string]string{"after": "clean-stop"}, "Start after clean Stop: %v", err)
 				break
 			}
